@@ -119,9 +119,14 @@ def eval_expression(expr: str, context: dict) -> Any:
     # We search for all variable names starting with $, remove the $ and add
     # the value in the dict for eval
     expr_locals = {}
+    # (a `$name` inside a string literal is plain text and stays as it is)
     regex_pattern = r"\$([a-zA-Z_][a-zA-Z0-9_]*)"
-    var_names = re.findall(regex_pattern, expr)
-    updated_expr = re.sub(regex_pattern, r"var_\1", expr)
+    var_names = re.findall(regex_pattern, re.sub(string_pattern, '""', expr))
+    updated_expr = re.sub(
+        string_pattern + "|" + regex_pattern,
+        lambda x: x.group(0) if x.group(5) is None else "var_" + x.group(5),
+        expr,
+    )
 
     for var_name in var_names:
         # if we've already computed the value, we skip
